@@ -27,7 +27,7 @@ ANCHOR_FUNCS = [("mofun/atoms.py", "Atoms.extend"), ("mofun/atoms.py", "Atoms.ex
 REQUIRED_LINES = [("mofun/atoms.py", "return forward_dir + reverse_dir"), ("mofun/mofun.py", "offsets = new_structure.extend_types(replace_pattern)")]
 JOBS = {"quick": 6, "thorough": 16}
 PATTERNS = ["asym4", "asym5", "chiral4", "chiral5", "twofold", "pyramid_c3v", "pair_hetero", "single", "asym6", "planar_d3h"]
-REPLS = ["equal_identical", "equal_partial", "larger_shared", "far_reaching", "equal_substitution", "smaller_shared", "larger_disjoint", "equal_identical"]
+REPLS = ["equal_identical", "equal_partial", "larger_shared", "far_reaching", "equal_substitution", "smaller_shared", "larger_disjoint", "nudged"]     # nudged: a same-element atom 2e-5 .. 0.08 A beside a search atom (a relaxed geometry) is another atom
 F8 = contracts.F8_KEY
 
 
